@@ -5,7 +5,7 @@
      K map <base> <len> <rw>                   a mapping made outside the modelled calls
      F <fn> <args> = <results>                 a call of the real function: the model must give the same results
 
-   notation:  MASK = 8 words;  CFG = purge_delay purge_decommits arena_purge_mult purge_extend_delay decommit_protects
+   notation:  MASK = 8 words;  CFG = purge_delay purge_decommits arena_purge_mult purge_extend_delay decommit_protects allow_large_os_pages
               ANS  = n (ok addr)*n             the answers the real kernel gave to the n system calls of this call
               CALLS= n (kind addr len arg)*n   the system calls seen by the shim (0 mmap 1 munmap 2 mprotect 3 madvise)
               SEG  = base kind size info MASK(commit) MASK(purge) expire allow_decommit allow_purge
@@ -27,7 +27,7 @@
      arena_try_purge CFG AR now force ANS = any ARO CALLS
      arenas_try_purge CFG g n AR*n now force visit_all ANS = g ARO*n CALLS
      arena_free CFG g n AR*n ai idx blocks all_committed now ANS = g ARO*n CALLS
-     os_roundtrip CFG which size align offset commit hint0 freesize ANS = ok p kind base msize committed zero pinned nmaps mbase mlen CALLS nmaps_after
+     os_roundtrip CFG which size align offset commit allow_large hint0 freesize ANS = ok p kind base msize committed zero pinned nmaps mbase mlen CALLS nmaps_after
 *)
 open BinNums
 open Util
@@ -51,9 +51,9 @@ let rd_big c k = Mask.mask_of_fields (rd_list c k rd_n)          (* k words -> o
 let big_out k m = L.map sn (Mask.fields_of_mask_aux (nat_of_int k) m)
 
 let rd_cfg c : Os.oscfg =
-  let d = rd_z c in let dc = rd_b c in let m = rd_z c in let e = rd_z c in let dp = rd_b c in
+  let d = rd_z c in let dc = rd_b c in let m = rd_z c in let e = rd_z c in let dp = rd_b c in let al = rd_z c in
   { Os.purge_delay = d; purge_decommits = dc; arena_purge_mult = m; purge_extend_delay = e; decommit_protects = dp;
-    hint_init = OsConsts.coq_MI_HINT_BASE_ }
+    hint_init = OsConsts.coq_MI_HINT_BASE_; allow_large_os_pages = al }
 
 let rd_answers c : (Datatypes.nat -> Os.answer) =
   let n = rd_i c in
@@ -176,13 +176,13 @@ let eval (fn : string) (args : string list) (res : string list) : string list =
     [sz g'] @ L.concat (L.map2 (fun a' (_, fc) -> arena_out a' fc) l' ars) @ calls_out o
   | "os_roundtrip" ->
     let cfg = rd_cfg c in let which = rd_i c in let size = rd_n c in let align = rd_n c in let offset = rd_n c in
-    let commit = rd_b c in let hint0 = rd_n c in let freesize = rd_n c in let orc = rd_answers c in
+    let commit = rd_b c in let al = rd_b c in let hint0 = rd_n c in let freesize = rd_n c in let orc = rd_answers c in
     let o0 = { Os.os0 with Os.os_hint = hint0 } in
     let (o1, res) =
       (match which with
        | 0 -> Os.os_alloc cfg orc o0 size
-       | 1 -> Os.os_alloc_aligned cfg orc o0 size align commit
-       | _ -> Os.os_alloc_aligned_at_offset cfg orc o0 size align offset commit) in
+       | 1 -> Os.os_alloc_aligned cfg orc o0 size align commit al
+       | _ -> Os.os_alloc_aligned_at_offset cfg orc o0 size align offset commit al) in
     (match res with
      | None -> ["0"; "0"; "0"; "0"; "0"; "0"; "0"; "0"; string_of_int (L.length o1.Os.os_k.Os.k_maps); "0"; "0"] @ calls_out o1 @
                [string_of_int (L.length o1.Os.os_k.Os.k_maps)]
